@@ -8,10 +8,11 @@ VARIABLES l, run
 tvars == <<vars, l, run>>
 Range(q) == {q[i] : i \in 1..Len(q)}
 
-Reset == /\ lead' = Lead0 /\ rec' = NoNode /\ inst' = [n \in Nodes |-> 0]
+GateOf(pc) == CASE pc = "RG" -> "AG" [] pc = "RR" -> "AR" [] OTHER -> pc
+Reset == /\ lead' = Lead0 /\ rec' = Rec0 /\ inst' = [n \in Nodes |-> 0]
          /\ flight' = [n \in Nodes |-> NoThread] /\ wait' = [n \in Nodes |-> {}]
-         /\ th' = [t \in Threads |-> [pc |-> "call", frames |-> <<Org[t]>>, tries |-> 0, res |-> "-"]]
-         /\ changes' = MaxChanges
+         /\ th' = [t \in Threads |-> [pc |-> "call", frames |-> <<Org[t]>>, tries |-> 0, res |-> "-", seen |-> NoNode]]
+         /\ changes' = MaxChanges /\ faults' = MaxFaults /\ badRemove' = FALSE
          /\ last' = [t |-> "-", a |-> "init", pc |-> "-", at |-> NoNode, n |-> NoNode, m |-> NoNode]
 
 TStep ==
@@ -24,7 +25,7 @@ TStep ==
        [] e.ev = "step" /\ run ->
             /\ Step(e.t)
             /\ last'.a = e.a
-            /\ last'.pc = e.gate
+            /\ GateOf(last'.pc) = e.gate
             /\ (e.at = "" \/ e.gate \in {"call", "done", "wait"} \/ last'.at = e.at)
             /\ rec' = e.own
             /\ Running' = Range(e.live)
